@@ -27,6 +27,7 @@ def run(repo, res, tier):
     _bash_printer_skips(repo, res)
     sk_bash.cmd_rule(repo, res, tier)
     sk_bash.fresh_rule(repo, res, tier)
+    sk_bash.candord_rule(repo, res, tier)
     sk_bash.matchfn_rule(repo, res, tier)
     c04.shared_cmd_ids(repo, res)
     from vlib import rules_fieldcover as FC
